@@ -163,6 +163,25 @@ Definition mon_step (m : mstate) (po : obs) (s : step_t) (no : obs) : mstate :=
   | SRecEnd n p => mon_end m po n p
   | SRecover n p => mon_end (mon_begin m po n p) po n p
   | SRestart n => MS (ms_recv m) (ms_msgs m) (filter (fun kx => negb (kx.1.1 =? n) = true) (ms_hw m))
+  | SFaulty fn g =>
+      (* node fn's ingress transaction fails to commit if it accepted anything: it then received
+         nothing; if it accepted nothing the batch was dominated and leaving it out changes no maximum *)
+      let radd (m : mstate) (n : N) (l : list op) := if n =? fn then m else recv_add m n l in
+      match g with
+      | GInject n _ b => if is_node po n then radd m n b else m
+      | GDeliver i n =>
+          match ms_msgs m !! i with
+          | Some l => if is_node po n then radd m n l else m
+          | None => m
+          end
+      | GRound i j late =>
+          if is_node po i && is_node po j && negb (i =? j) then
+            match obs_store po i with
+            | [] => m
+            | pl => radd (radd m j pl) i (if late then obs_store no j else obs_store po j)
+            end
+          else m
+      end
   | SFb _ | SFbAll | SSub _ _ _ | SStall _ _ => m
   end.
 
@@ -170,7 +189,7 @@ Definition mon_step (m : mstate) (po : obs) (s : step_t) (no : obs) : mstate :=
    version that node has not assigned yet (versions are assigned only by the leaseholder). *)
 Definition forged_step (po : obs) (s : step_t) : bool :=
   match s with
-  | SInject _ _ b => existsb (fun x => is_node po (o_lh x) && (obs_ctr po (o_lh x) <? o_ver x)%Z) b
+  | SInject _ _ b | SFaulty _ (GInject _ _ b) => existsb (fun x => is_node po (o_lh x) && (obs_ctr po (o_lh x) <? o_ver x)%Z) b
   | _ => false
   end.
 Fixpoint forged (po : obs) (l : list (step_t * obs)) : bool :=
